@@ -510,4 +510,271 @@ class MacroSpelling(Engine):
             'tags': ['ambiguous-macro' if ambiguous else 'plain']}
 
 
-ENGINES = [SelMap(), Spelling(), MacroSpelling()]
+class ReportedNames(Engine):
+  """`config_str()` / `operative_config_str()` report every bound (resp. used) parameter under a name chosen by Gin: "the
+  shortest name reported for an entry resolves back to that entry and no shorter suffix does".  Entries here are functions,
+  classes (`gin.register`, `gin.external_configurable`; `gin.configurable` for classes without registered methods) and `@gin.register`ed METHODS
+  of those classes (complete name `module.Class.method`; Gin's documented rule is that a method is
+  never addressed without its class, so the bare method name does not resolve), several of which share their last one or two
+  components across modules; some entries are only registered (not bound), some are registered after the bindings were
+  made.  Every parameter is bound to a value no other parameter has, so what a reported name resolves to is read off the
+  public `query_parameter`, not off Gin's bookkeeping:
+    * every reported key resolves (is neither ambiguous nor unknown) to the parameter whose value is printed with it,
+    * it is a component-wise suffix of that entry's complete name and no shorter suffix resolves to the entry,
+    * every bound (used) parameter is reported exactly once, and the reported text parsed into a cleared configuration
+      restores every binding.
+  Implementation only: the Coq model has no config text and no methods."""
+  name = 'reported-names'
+  model = False
+  MODULES = ['alpha', 'beta', 'alpha.sub', 'beta.sub', 'pkg.alpha', 'pkg.beta.sub', 'Worker', 'lib.Worker']
+  CLASSES = ['Worker', 'Solo', 'worker']
+  METHODS = ['run', 'go']
+  FUNCS = ['run', 'go', 'make', 'Worker', 'Solo']
+  SCOPES = ['', '', '', 's1', 's1/s2']
+
+  def budget(self, tier):
+    return 250 if tier == 'quick' else 6000
+
+  @staticmethod
+  def _cls(module, name, methods, **kw):
+    return dict({'kind': 'cls', 'module': module, 'name': name, 'bound': True, 'scope': '', 'late': False,
+                 'deco': 'register', 'methods': [dict({'name': m, 'bound': True, 'scope': ''}, **(mk or {}))
+                                                 for m, mk in methods]}, **kw)
+
+  @staticmethod
+  def _fn(module, name, **kw):
+    return dict({'kind': 'fn', 'module': module, 'name': name, 'bound': True, 'scope': '', 'late': False}, **kw)
+
+  def corpus(self):
+    K, F = self._cls, self._fn
+    return [
+        # same class name in two modules, each with a registered method of the same name; a third class whose Class.method is unique
+        {'entries': [K('alpha', 'Worker', [('run', None)]), K('beta', 'Worker', [('run', None)]), K('gamma', 'Solo', [('go', None)])]},
+        # only ONE of the two methods is bound; the other class is registered after the binding, under a scope
+        {'entries': [K('pkg.alpha', 'Worker', [('run', {'scope': 's1'}), ('go', None)], bound=False),
+                     K('pkg.beta', 'Worker', [('run', {'bound': False})], late=True, bound=False), F('pkg', 'run')]},
+        # a function whose module path ends with a class name, a class made configurable with external_configurable, a function without `module=`
+        {'entries': [K('alpha', 'Worker', [('run', None)], deco='external'), F('lib.Worker', 'run'), F('', 'go'),
+                     K('alpha.sub', 'Solo', [('go', None)]), K('beta.sub', 'Solo', [('run', None)], scope='s1/s2')]},
+    ]
+
+  def gen(self, rng, tier):
+    entries, taken = [], set()
+    for _ in range(rng.randint(2, 5)):
+      if rng.random() < 0.65:
+        if entries and rng.random() < 0.75:     # share the class name (and often the method names) of an earlier class
+          prev = [e for e in entries if e['kind'] == 'cls']
+          name = rng.choice(prev)['name'] if prev else rng.choice(self.CLASSES)
+        else:
+          name = rng.choice(self.CLASSES)
+        e = {'kind': 'cls', 'module': rng.choice(self.MODULES), 'name': name, 'bound': rng.random() < 0.5,
+             'scope': rng.choice(self.SCOPES), 'late': rng.random() < 0.2,
+             'deco': rng.choice(['register', 'register', 'external', 'configurable']),
+             'methods': [{'name': m, 'bound': rng.random() < 0.75, 'scope': rng.choice(self.SCOPES)}
+                         for m in rng.sample(self.METHODS, rng.choice([0, 1, 1, 2]))]}
+        if e['deco'] == 'configurable':
+          e['methods'] = []       # only registered / external classes adopt their registered methods
+      else:
+        e = {'kind': 'fn', 'module': rng.choice(self.MODULES + ['']), 'name': rng.choice(self.FUNCS), 'bound': rng.random() < 0.7,
+             'scope': rng.choice(self.SCOPES), 'late': rng.random() < 0.2}
+      full = (e['module'] or 'c08_fn_module') + '.' + e['name']
+      names = {full} | {full + '.' + m['name'] for m in e.get('methods', [])}
+      if names & taken:
+        continue
+      taken |= names
+      entries.append(e)
+    return {'entries': entries}
+
+  def shrink(self, case):
+    es = case['entries']
+    for i in range(len(es)):
+      yield {'entries': es[:i] + es[i + 1:]}
+    for i, e in enumerate(es):
+      for j in range(len(e.get('methods', []))):
+        yield {'entries': es[:i] + [dict(e, methods=e['methods'][:j] + e['methods'][j + 1:])] + es[i + 1:]}
+      for k, v in (('late', False), ('scope', ''), ('deco', 'register')):
+        if e.get(k, v) != v:
+          yield {'entries': es[:i] + [dict(e, **{k: v})] + es[i + 1:]}
+      if e['bound'] and e.get('methods'):
+        yield {'entries': es[:i] + [dict(e, bound=False)] + es[i + 1:]}
+      for j, m in enumerate(e.get('methods', [])):
+        for k, v in (('scope', ''), ('bound', False)):
+          if m[k] != v:
+            yield {'entries': es[:i] + [dict(e, methods=e['methods'][:j] + [dict(m, **{k: v})] + e['methods'][j + 1:])] + es[i + 1:]}
+
+  def impl(self, case):
+    gin = C.fresh_gin()
+    fails, params = [], []      # params: dict(full=complete selector, scope, value, bound, call=thunk, is_method)
+    counter = [100]
+
+    def new_value():
+      counter[0] += 1
+      return counter[0]
+
+    def define(e):
+      """the Python definition + registration of one entry, as a user module would write it"""
+      # without `module=` Gin takes the Python module of the function
+      ns = {'gin': gin, '__name__': 'c08_user_module' if e['kind'] == 'cls' else 'c08_fn_module'}
+      full = (e['module'] or 'c08_fn_module') + '.' + e['name']
+      if e['kind'] == 'fn':
+        exec('def %s(p=0):\n  return p\n' % e['name'], ns)       # pylint: disable=exec-used
+        gin.external_configurable(ns[e['name']], name=e['name'], module=e['module'] or None)
+        params.append({'full': full, 'arg': 'p', 'scope': e['scope'], 'bound': e['bound'], 'is_method': False,
+                       'make': lambda: gin.get_configurable(full), 'call': lambda fn: fn()})
+        return
+      deco = e.get('deco', 'register')
+      src = 'class %s:\n  def __init__(self, k=0):\n    self.k = k\n' % e['name']
+      for m in e['methods']:
+        src += '  @gin.register\n  def %s(self, p=0):\n    return p\n' % m['name']
+      exec(src, ns)                                                # pylint: disable=exec-used
+      if deco == 'register':
+        gin.register(ns[e['name']], module=e['module'])
+      elif deco == 'external':
+        gin.external_configurable(ns[e['name']], module=e['module'])
+      elif e['methods']:
+        # a class made configurable in place does not adopt its registered methods (they stay functions of the Python module)
+        raise ValueError('not an input of this engine: @gin.configurable class with registered methods')
+      else:
+        gin.configurable(ns[e['name']], module=e['module'])
+      params.append({'full': full, 'arg': 'k', 'scope': e['scope'], 'bound': e['bound'], 'is_method': False,
+                     'make': lambda: gin.get_configurable(full), 'call': lambda cls: cls().k})
+      for m in e['methods']:
+        params.append({'full': full + '.' + m['name'], 'arg': 'p', 'scope': m['scope'], 'bound': m['bound'], 'is_method': True,
+                       'cls_scope': e['scope'], 'call': lambda obj, n=m['name']: getattr(obj, n)(),
+                       'make': lambda: gin.get_configurable(full)})
+
+    def bind_new(lo):
+      for p in params[lo:]:
+        if p['bound']:
+          p['value'] = new_value()
+          gin.bind_parameter((p['scope'] + '/' if p['scope'] else '') + p['full'] + '.' + p['arg'], p['value'])
+
+    try:
+      for e in case['entries']:
+        if not e['late']:
+          define(e)
+      bind_new(0)
+      n0 = len(params)
+      for e in case['entries']:
+        if e['late']:
+          define(e)
+      bind_new(n0)
+    except Exception as ex:  # pylint: disable=broad-except
+      # a set of definitions Gin refuses (e.g. a clash of names) is not an input of this engine
+      return {'obs': C.T('Rejected', '%s: %s' % (type(ex).__name__, str(ex)[:80])), 'fails': [], 'nontrivial': False, 'tags': ['rejected']}
+    by_value = {p['value']: p for p in params if p['bound']}
+    all_full = [p['full'] for p in params]
+
+    def resolve(key):
+      try:
+        return ('value', gin.query_parameter(key))
+      except Exception as ex:  # pylint: disable=broad-except
+        return ('raised', '%s: %s' % (type(ex).__name__, str(ex).split('\n')[0][:150]))
+
+    def check_text(what, text, expected):
+      seen = {}
+      lines = text.split('\n')
+      for ln, line in enumerate(lines):
+        if not line or line[0] in '# ' or ' = ' not in line:
+          continue
+        key, _, lit = line.partition(' = ')
+        if lit.strip() == '\\' and ln + 1 < len(lines):
+          lit = lines[ln + 1]
+        try:
+          val = int(lit.strip())
+        except ValueError:
+          continue
+        p = by_value.get(val)
+        if p is None:
+          continue                                      # a default value of an unbound parameter (operative config)
+        scope, _, rest = key.rpartition('/')
+        sel, _, arg = rest.rpartition('.')
+        got = resolve(key)
+        if got != ('value', val):
+          fails.append(('reported-name-does-not-resolve-back',
+                        '%s reports %r = %d, the binding of %s%s.%s; but query_parameter(%r) gives %r; registered: %r' %
+                        (what, key, val, p['scope'] + '/' if p['scope'] else '', p['full'], p['arg'], key, got, sorted(all_full))))
+          continue
+        if key in seen:
+          fails.append(('reported-name-does-not-resolve-back', '%s reports the key %r twice' % (what, key)))
+        seen[key] = val
+        if sel not in suffixes(p['full']) or scope != p['scope'] or arg != p['arg']:
+          fails.append(('reported-name-not-a-suffix', '%s reports %r for %s%s.%s' %
+                        (what, key, p['scope'] + '/' if p['scope'] else '', p['full'], p['arg'])))
+          continue
+        for s in suffixes(p['full']):
+          if len(s) < len(sel):
+            k2 = (scope + '/' if scope else '') + s + '.' + arg
+            if resolve(k2) == ('value', val):
+              fails.append(('reported-name-not-minimal', '%s reports %r although the shorter %r resolves to the same parameter '
+                            '(query_parameter gives %d); registered: %r' % (what, key, k2, val, sorted(all_full))))
+              break
+      missing = sorted(set(expected) - set(seen.values()))
+      if missing and not fails:
+        p = by_value[missing[0]]
+        fails.append(('reported-name-does-not-resolve-back', '%s has no line for the binding %s%s.%s = %d:\n%s' %
+                      (what, p['scope'] + '/' if p['scope'] else '', p['full'], p['arg'], p['value'], text[-600:])))
+
+    try:
+      saved = gin.config_str()
+    except Exception as ex:  # pylint: disable=broad-except
+      saved = None
+      fails.append(('reported-name-does-not-resolve-back', 'config_str() raised %s: %s; registered %r' %
+                    (type(ex).__name__, str(ex).split('\n')[0][:200], sorted(all_full))))
+    if saved is not None:
+      check_text('config_str()', saved, list(by_value))
+    # use every bound parameter in its scope, then look at the operative config
+    used = []
+    for p in params:
+      if not p['bound']:
+        continue
+      try:
+        if p['is_method']:
+          cls = p['make']()      # looked up outside any scope: a class looked up inside one pins its methods to that scope
+          with gin.config_scope(p['cls_scope'] or None):     # the instance is made in the scope the class is configured in
+            obj = cls()
+          with gin.config_scope(p['scope'] or None):
+            got = p['call'](obj)
+        else:
+          fn = p['make']()
+          with gin.config_scope(p['scope'] or None):
+            got = p['call'](fn)
+      except Exception as ex:  # pylint: disable=broad-except
+        got = 'raised %s: %s' % (type(ex).__name__, str(ex).split('\n')[0][:150])
+      if got != p['value']:
+        fails.append(('binding-not-delivered', '%s%s.%s bound to %d through its complete name; a call in that scope receives %r' %
+                      (p['scope'] + '/' if p['scope'] else '', p['full'], p['arg'], p['value'], got)))
+      else:
+        used.append(p['value'])
+    if not fails:
+      try:
+        check_text('operative_config_str()', gin.operative_config_str(), used)
+      except Exception as ex:  # pylint: disable=broad-except
+        fails.append(('reported-name-does-not-resolve-back', 'operative_config_str() raised %s: %s; registered %r' %
+                      (type(ex).__name__, str(ex).split('\n')[0][:200], sorted(all_full))))
+    if saved is not None and not fails:
+      # the reported names, read back as a config, address the same parameters
+      gin.clear_config()
+      try:
+        gin.parse_config(saved)
+      except Exception as ex:  # pylint: disable=broad-except
+        fails.append(('reported-name-does-not-resolve-back', 'the text of config_str() is refused by parse_config: %s: %s\n%s' %
+                      (type(ex).__name__, str(ex).split('\n')[0][:200], saved[-600:])))
+      else:
+        for p in by_value.values():
+          key = (p['scope'] + '/' if p['scope'] else '') + p['full'] + '.' + p['arg']
+          got = resolve(key)
+          if got != ('value', p['value']):
+            fails.append(('reported-name-does-not-resolve-back', 'after clear_config + parse_config(config_str()), %r is %r, was %d' %
+                          (key, got, p['value'])))
+            break
+    tails = {}
+    for f in all_full:
+      tails.setdefault(tuple(f.split('.')[-2:]) if len(f.split('.')) > 1 else (f,), []).append(f)
+    shared = any(len(v) > 1 for v in tails.values())
+    meth_shared = any(p['is_method'] and len(tails[tuple(p['full'].split('.')[-2:])]) > 1 for p in params)
+    return {'obs': C.T('Done'), 'fails': fails[:3], 'nontrivial': shared and len(by_value) >= 2,
+            'tags': ['method-class-name-shared' if meth_shared else 'shared-tail' if shared else 'distinct']}
+
+
+ENGINES = [SelMap(), Spelling(), MacroSpelling(), ReportedNames()]
